@@ -33,7 +33,7 @@ ASSUMPTIONS = [
 PROBES = ["zero_size_block", "create_after_remove", "same_name_two_creations", "remove_by_name", "remove_by_md_variable", "remove_by_variable",
           "interface_variable", "face_or_node_dofs", "grids_passed_out_of_order", "additive_write", "subset_set_get", "rejected_duplicate_name",
           "rejected_unknown_variable", "rejected_dof_out_of_range", "rejected_both_grid_kinds", "rejected_no_grids", "rejected_bad_dof_type",
-          "layout_ge_6_blocks", "empty_system_after_removals", "rejected_remove_after_live_prefix"]
+          "layout_ge_6_blocks", "empty_system_after_removals", "rejected_remove_after_live_prefix", "caller_reuses_and_mutates_dof_info_dict"]
 
 NAMES = ["p", "q", "r", "s"]
 
@@ -143,6 +143,8 @@ def run_history_c05(ch, tr: Trace) -> None:
             raise Violation("projection_selects_block_indices", f"projection_to({[label(b) for b in sub]}) has shape {P.shape} and selects {got.tolist()}, expected indices {exp.tolist()}")
 
     # ------------------------------------------------------------------ operations
+    shared_info: dict = {}
+
     def gen_dof_info():
         m = ch.draw(6)
         if m == 0:
@@ -163,6 +165,14 @@ def run_history_c05(ch, tr: Trace) -> None:
         pool = intfs if on_intf else sds
         grids = ch.shuffle(ch.subset(pool, 1))
         dof_info = gen_dof_info()
+        if ch.flag(1, 4):
+            # the caller reuses one dictionary object for several creations and rewrites it in between: the layout of
+            # earlier variables is fixed by the multiplicities declared at *their* creation
+            if shared_info:
+                tr.probe("caller_reuses_and_mutates_dof_info_dict")
+            shared_info.clear()
+            shared_info.update(dof_info)
+            dof_info = shared_info
         clash = any(b["name"] == name and b["grid"] in grids for b in live)
         kwargs = {"interfaces": grids} if on_intf else {"subdomains": grids}
         try:
